@@ -54,6 +54,25 @@ Definition chk_seq (k : kind) (mr : nat) (ign : bool) (slave seq0 : N) (queue0 :
     list_eqb one_eqb outs exp && (i_next_seq st =? exp_seq) && Nat.eqb (length c) exp_unread
   end.
 
+(* histories of requests and probes: a step is (0, request ...) or (1, probe of address hd ql) *)
+Definition chk_steps (k : kind) (mr : nat) (ign : bool) (slave seq0 : N) (queue0 : list (list N))
+           (steps : list (N * list N * list (list N) * list N * list event))
+           (exp : list (res (list N) * list (list N) * nat)) (exp_seq : N) (exp_unread : nat) : bool :=
+  let ss := map (fun '(t, l, rt, p, ev) =>
+                   (match t with 0 => SReq (mkq l rt p) | _ => SProbe (hd 0 l) end, ev)) steps in
+  match k with
+  | KRmcp | KRmcpOriginal =>
+    let '(outs, st, c) := rmcp_run_steps (match k with KRmcpOriginal => true | _ => false end)
+                                         (mkRmcp seq0 queue0 mr ign slave) [] ss in
+    list_eqb one_eqb outs exp && (m_next_seq st =? exp_seq) && Nat.eqb (length c) exp_unread
+  | KIpmbDev =>
+    let '(outs, st, c) := i2c_run_steps ipmbdev_view ipmbdev_wire (mkI2c seq0 mr slave) [] ss in
+    list_eqb one_eqb outs exp && (i_next_seq st =? exp_seq) && Nat.eqb (length c) exp_unread
+  | KAardvark =>
+    let '(outs, st, c) := i2c_run_steps aardvark_view aardvark_wire (mkI2c seq0 mr slave) [] ss in
+    list_eqb one_eqb outs exp && (i_next_seq st =? exp_seq) && Nat.eqb (length c) exp_unread
+  end.
+
 (* ------------------------------------------------------------------------- *)
 (* the alphabet of the exhaustive sweep, built from the request header          *)
 (* ------------------------------------------------------------------------- *)
